@@ -65,3 +65,34 @@ __CPROVER_ensures(NV_ARGMIN(self->dist, max_trials, nv_g, __CPROVER_return_value
 __CPROVER_assigns(trial, best_trial, best_distance) \
 __CPROVER_loop_invariant(0 <= trial && trial <= max_trials && NV_ARGMIN_INV(self->dist, trial, nv_g, best_trial, best_distance)) \
 __CPROVER_decreases(max_trials - trial)
+
+/* ---- result_t::values(range, split, value): the values handed to the tuner -- element k is value(begin + k, split, value),
+ * with the caller's split / value selectors passed through unchanged (ghost position nv_q of the returned tensor) */
+struct nv_range { int64_t m_begin, m_end; };
+struct nv_vals { int64_t n; double cell_q; double other; };
+int64_t nv_q;                         /* ghost: an arbitrary position of the returned tensor */
+int32_t nv_w_split, nv_w_value;       /* ghost: the selectors value() was called with for the trial at position nv_q */
+int64_t nv_w_begin;
+static struct nv_vals nv_vals_new(int64_t n) { struct nv_vals v; v.n = n; v.cell_q = nv_nondet_double(); v.other = 0.0; return v; }
+static double* nv_vals_at(struct nv_vals* v, int64_t i)
+{
+  __CPROVER_assert(0 <= i && i < v->n, "values(i): index inside the tensor");
+  return i == nv_q ? &v->cell_q : &v->other;
+}
+static double nv_result_value3(const struct nv_result* r, int64_t trial, int32_t split, int32_t value)
+{
+  __CPROVER_assert(0 <= trial && trial < r->trials, "value(trial, ..): 0 <= trial < trials()");
+  if (trial == nv_w_begin + nv_q) { nv_w_split = split; nv_w_value = value; }
+  return r->value[trial];
+}
+#define NV_CONTRACT_result_values \
+__CPROVER_requires(NV_RESULT_OK(value) && 0 <= trial_range.m_begin && trial_range.m_begin <= trial_range.m_end && trial_range.m_end <= self->trials) \
+__CPROVER_requires(0 <= nv_q && nv_q <= NV_MAXN && nv_w_begin == trial_range.m_begin) \
+__CPROVER_assigns(nv_w_split, nv_w_value) \
+__CPROVER_ensures(__CPROVER_return_value.n == trial_range.m_end - trial_range.m_begin) \
+__CPROVER_ensures(nv_q >= __CPROVER_return_value.n || (NV_SAME(__CPROVER_return_value.cell_q, self->value[trial_range.m_begin + nv_q]) && nv_w_split == split && nv_w_value == value))
+#define NV_LOOP_result_values_1 \
+__CPROVER_assigns(trial, values.cell_q, values.other, nv_w_split, nv_w_value) \
+__CPROVER_loop_invariant(trial_range.m_begin <= trial && trial <= trial_range.m_end && values.n == trial_range.m_end - trial_range.m_begin \
+  && (nv_q >= trial - trial_range.m_begin || (NV_SAME(values.cell_q, self->value[trial_range.m_begin + nv_q]) && nv_w_split == split && nv_w_value == value))) \
+__CPROVER_decreases(trial_range.m_end - trial)
